@@ -929,6 +929,11 @@ func runC19(w *World, r *Report) {
 					}
 					_, isTA := e.Tuple.(*ssa.TypeAssert)
 					return isTA
+				}, func(g guard) bool {
+					// "was not skipped before": a channel that already was skipped holds nothing any more (it gave its values up when it
+					// became skipped, and reportValues closes what arrives later)
+					fSkipped := w.Field("compose", "dagChannel", "Skipped")
+					return !g.pol && isLoadOfField(g.cond, fSkipped)
 				})
 				if rangesValues && guarded && len(extra) == 0 {
 					good = true
